@@ -231,6 +231,28 @@ def run(c):
     stats["fuzz_ops"] += sstats["ops"]
     stats["crashes"] += sstats["crashes"]
 
+    # ---- (1b') the standard editors / navigator / selector with `bindings` sections (checks/C05.py: keys bound to actions, to
+    # `noop` — removing a default binding or naming an unbound key —, entries LoadConfig must step over): every key the sections
+    # name, in every kind of state; a crash / sanitizer report = C01 violation
+    from checks import C05 as c5
+    bws = c5.bind_workspace(c, "ws_bind01")
+    brows = sc.gen_table(c.rng, "abc")
+    stats["bindings_histories"] = 0
+    for bsid in sorted(c5.BIND_SCHEMAS):
+        bhs = c5.bind_crash_histories(c.rng, bsid, 6 if quick else 80)
+        stats["bindings_histories"] += len(bhs)
+        script, index = sc.make_script(brows, [(bsid, h) for h in bhs])
+        p = os.path.join(c.work, "bind01_%s.script" % bsid)
+        with open(p, "w") as f:
+            f.write(script)
+        rcb, outb = sc.run_impl(sexe, bws, p)
+        nb = len([l for l in outb.splitlines() if l.startswith("ret=")])
+        stats["fuzz_ops"] += nb
+        if rcb != 0 or nb < len(index):
+            stats["crashes"] += 1
+            hno = index[min(nb, len(index) - 1)][0]
+            sc.report_crash(c, "C01", sexe, bws, brows, bsid, list(bhs[hno]), outb, lambda st, op, o: None)
+
     # ---- (1c) state that outlives one call: every short sequence of mode switches in an open composition, then a change of
     # schema (processors destroyed, notifier connections must be gone), then keys; and the switcher on a one-schema deployment
     grid, n_seq = c1.mode_grid(3 if quick else 4)
@@ -375,6 +397,17 @@ def run(c):
 
 
 def replay(c, r):
+    from checks import C05 as c5
+    if r.get("schema") in c5.BIND_SCHEMAS and "ops" in r and not r.get("mode"):
+        # a history on a schema with `bindings` sections (session harness, part 1b')
+        sexe = sc.build()
+        res = sc.eval_history(c, sexe, c5.bind_workspace(c, "ws_bind01"), [tuple(x) for x in r.get("table", [])], r["schema"], r["ops"],
+                              lambda st, op, o: None, "rp")
+        print("rc=%d" % res["rc"])
+        print(res["log"][-1500:])
+        return 1 if res["rc"] else 0
+    if r.get("schema") in sc.SCHEMAS and "ops" in r and not r.get("mode"):
+        return sc.replay_history(c, r, lambda st, op, o: sc.seg_geometry(o, contiguous=not sc.SCHEMAS.get(r["schema"], {}).get("dupSegments")))
     exe, bdir = vlib.build_harness("c01_harness", "san", ["c01_harness.cc"])
     base = c1.make_full_workspace(os.path.join(c.work, "base"))
     if r.get("mode") == "mutant":
